@@ -12,7 +12,7 @@ TV   Trivia_Trace: runs are in the language and rendered as specified; acceptanc
 import random, json
 import vlib, svgen, tree, pp, c15
 
-KT = {"sp": " ", "ht": "\t", "ff": "\f", "nl": "\n", "crlf": "\r\n", "lcmt": "// c ü\n", "bcmt": "/* c é */",
+KT = {"sp": " ", "ht": "\t", "ff": "\f", "nl": "\n", "crlf": "\r\n", "lcmt": "// c ü\n", "bcmt": "/* c é */", "ecmt": "/**/", "scmt": "/***/",
       "celldefine": "`celldefine ", "endcelldefine": "`endcelldefine ", "default_nettype": "`default_nettype wire ", "timescale": "`timescale 1ns/1ps ",
       "unconnected_drive": "`unconnected_drive pull1 ", "nounconnected_drive": "`nounconnected_drive ", "line": "`line 7 \"f.v\" 0\n",
       "define": "`define TRIVIA_M 1\n", "undef": "`undef TRIVIA_M ", "resetall": "`resetall "}
@@ -71,24 +71,37 @@ def run(tier, seed):
         # directly after a string literal only blanks are placed: a comment or directive there runs into
         # known finding D2 (emitted twice by the preprocessor), which PpLex/C06 decides on its own
         after_str = {p for p in range(n) if tk[p].startswith('"')}
+        BL = ("sp", "ht", "ff", "nl", "crlf")
+
+        def prev_kind(p):
+            return "esc" if tk[p].startswith("\\") else ("slash" if tk[p].endswith("/") else "")
+
+        def ok(p, run_):
+            # the well-formedness rules of Trivia.tla (the trace spec re-checks every variant it is shown)
+            if p in after_str and any(k not in BL for k in run_):
+                return False
+            pk = prev_kind(p)
+            if pk == "esc" and run_[0] not in ("sp", "ht", "nl", "crlf"):
+                return False
+            if pk == "slash" and run_[0] in ("lcmt", "bcmt", "ecmt", "scmt"):
+                return False
+            return True
         for p in range(n):
             for k in NEUTRAL:
-                if p in after_str and k not in ("sp", "ht", "ff", "nl", "crlf"):
-                    continue
-                variants.append((p, [k]))
+                if ok(p, [k]):
+                    variants.append((p, [k]))
             if p in tops:
                 variants.append((p, ["resetall"]))
                 variants.append((p, ["nl", "resetall", "nl"]))
         for _ in range(10 if quick else 30):
             p = rng.randrange(n)
-            if p in after_str:
-                continue
-            variants.append((p, [rng.choice(NEUTRAL) for _ in range(rng.randint(2, 5))]))
+            run_ = [rng.choice(NEUTRAL) for _ in range(rng.randint(2, 5))]
+            if ok(p, run_):
+                variants.append((p, run_))
         for _ in range(3):
-            if after_str:
-                variants.append((-1, [rng.choice(["sp", "ht", "ff", "nl", "crlf"]) for _ in range(rng.randint(1, 3))]))
-            else:
-                variants.append((-1, [rng.choice(NEUTRAL) for _ in range(rng.randint(1, 3))]))      # the same run at ALL positions
+            run_ = [rng.choice(["sp", "ht", "nl", "crlf"])] + [rng.choice(BL if after_str else NEUTRAL) for _ in range(rng.randint(0, 2))]
+            if all(ok(p, run_) for p in range(n)):
+                variants.append((-1, run_))      # the same run at ALL positions
         calls = [{"fn": "two_step_sv_str", "path": "t.sv", "text": join(tk, [" "] * n)}]
         vm = []
         for (p, run_) in variants:
@@ -99,7 +112,7 @@ def run(tier, seed):
             else:
                 seps = [txt] * n
             calls.append({"fn": "two_step_sv_str", "path": "t.sv", "text": join(tk, seps)})
-            vm.append({"pos": p, "run": run_, "text": txt, "top": (p in tops)})
+            vm.append({"pos": p, "run": run_, "text": txt, "top": (p in tops), "prev": prev_kind(p) if p >= 0 else ""})
         hcases.append({"id": bi, "calls": calls, "fresh_each": True})
         meta.append(vm)
     vlib.log("C12: %d base sources, %d parses" % (len(bases), sum(len(h["calls"]) for h in hcases)))
